@@ -204,7 +204,8 @@ class SparseMLPModel(MLPModel):
         return np.linalg.norm(self.W_skip_, axis=1, ord=2).sum()
 
     def fit(self, X, y=None):
-        X = validate_data(self, X)
+        self._validate_params()
+        X = validate_data(self, X, ensure_min_samples=self.n_clusters)
         self.groups_ = check_groups(self.groups, X.shape[1])  # Intercept to check that group forms a partition
         return super().fit(X, y)
 
